@@ -79,6 +79,29 @@ pub fn generate(rng: &mut Rng, tier: &str, shard: usize, nshards: usize, out: &m
             }
         }
     }
+    // 1b. the scale-0 fast paths: integers within ±3 of each limit at scale 0, and at a negative
+    //     scale whenever the integer is divisible by a power of ten
+    for lim in &limits {
+        for d in -3i64..=3 {
+            let v = lim + BigInt::from(d);
+            let a = dec(v.clone(), 0);
+            for c in convs { emit(format!("C15\tconv\t{}\t{}", c, show(&a)), &mut n); }
+            let mut k = 0i64; let mut w = v.clone();
+            while w != BigInt::from(0) && (&w % BigInt::from(10)) == BigInt::from(0) && k < 3 { w = w / BigInt::from(10); k += 1;
+                let b = dec(w.clone(), -k);
+                for c in convs { emit(format!("C15\tconv\t{}\t{}", c, show(&b)), &mut n); } }
+        }
+    }
+    // 1c. random integers at scale 0 around the 63/64/127/128-bit sizes
+    for _ in 0..(if thorough { 20_000 } else { 2_000 }) {
+        let bits = *rng.pick(&[62u64, 63, 64, 65, 126, 127, 128, 129]);
+        let mut v = BigInt::from(1) << (bits as usize);
+        v = v - BigInt::from(rng.below(3) as i64) * (BigInt::from(1) << (rng.below(bits) as usize)) - BigInt::from(rng.range(-2, 2));
+        if rng.below(2) == 0 { v = -v; }
+        let a = dec(v, 0);
+        let c = *rng.pick(&convs);
+        emit(format!("C15\tconv\t{}\t{}", c, show(&a)), &mut n);
+    }
     // 2. negative scales pushing a small unscaled value past a limit; fractions in (-1, 1)
     let total = if thorough { 300_000 } else { 25_000 };
     for _ in 0..total {
